@@ -2,7 +2,7 @@
 import itertools
 from .. import common as C, structs as S, valgen as V, refcodec as R
 
-LEAN_MODULES = ["ZvtVerif.Properties.C13"]
+LEAN_MODULES = ["ZvtVerif.Properties.C13", "ZvtVerif.Properties.C13S"]
 ASSUMPTIONS = ["canonical value domain of DESIGN.md §5.1", "a Vec field's consecutive elements form one group"]
 
 
